@@ -25,3 +25,7 @@ def run(ctx, rep):
     more3.rule_kernel_base(mod, rep)
     more3.rule_prune_guard(mod, rep)
     more3.rule_threshold_forward(mod, rep)
+    from ..rules import more4
+    more4.rule_complex_nonzero(mod, rep)
+    more4.rule_busy_fnz(mod, rep)
+    more4.rule_row_block(mod, rep)
